@@ -17,6 +17,12 @@ Two optional plans make it a test instrument:
   object number `i` *reported* by the u-th call of `getProperties` for that object is shifted by
   `d` (a number, a 3-list for vectors, or a replacement string).  The internal state is not
   changed, so exactly one reported value differs (C18 divergence oracle).
+* ``drift = {"obj": i, "prop": p, "delta": d, "freeze_from": u0 | None}`` -- the value of property
+  `p` of object `i` reported by its u-th update is ``true + d * u`` (a number, or a 3-list for
+  vectors); with ``freeze_from = u0 >= 1`` every update ``u >= u0`` reports again exactly what
+  update ``u0 - 1`` reported (the property is *stuck* as far as Scenic can see).  The internal
+  state is not changed.  With ``keep_reports`` every reported dict is kept in ``reports`` as
+  ``(object index, update number, {prop: value})`` (C18 oracle for stuck recordings / replays).
 * ``faults`` -- an object with a method ``hit(site)``, called at the sites ``create``, ``step``,
   ``getProperties``, ``applyTo``; it may raise (C14 fault injection).
 * ``observer`` -- callable invoked with the simulation at the start of every ``step()`` (after
@@ -33,8 +39,12 @@ from scenic.core.vectors import Vector
 
 class HSimulator(Simulator):
     def __init__(self, perturb=None, faults=None, observer=None, create_assign=None,
-                 none_value=None):
+                 none_value=None, drift=None, keep_reports=False):
         super().__init__()
+        self.drift = drift
+        self.keep_reports = keep_reports or drift is not None
+        self.reports = []  # (object index, update number, reported values) of the last simulation
+        self.frozen = None
         # {property: increment}: like real interfaces, the simulator may write (non-dynamic)
         # properties of an object while creating it -- before it can fail
         self.create_assign = create_assign or {}
@@ -54,6 +64,8 @@ class HSimulator(Simulator):
 
     def createSimulation(self, scene, **kwargs):
         self.log = []
+        self.reports = []
+        self.frozen = None
         return HSimulation(scene, owner=self, **kwargs)
 
 
@@ -146,6 +158,20 @@ class HSimulation(Simulation):
             vals[pl["prop"]] = _shift(orig, pl["delta"])
             self.owner.perturbed += 1
             self.owner.effects.append((orig, vals[pl["prop"]]))
+        dr = self.owner.drift
+        if dr is not None and dr["obj"] == i and dr["prop"] in vals:
+            p, f0 = dr["prop"], dr.get("freeze_from")
+            if f0 is not None and u >= f0:
+                if self.owner.frozen is None:
+                    raise RuntimeError("harness simulator: frozen value missing")
+                vals[p] = self.owner.frozen[0]
+            else:
+                d = dr["delta"]
+                vals[p] = _shift(vals[p], [c * u for c in d] if isinstance(d, list) else d * u)
+                if f0 is not None and u == f0 - 1:
+                    self.owner.frozen = (vals[p],)
+        if self.owner.keep_reports:
+            self.owner.reports.append((i, u, dict(vals)))
         return vals
 
 
